@@ -174,7 +174,7 @@ impl<const B: u32> CellType for SymCell<B> {
     }
 
     fn into_u8(self) -> u8 {
-        let prev = with(|c| c.parked_out.replace(self.0));
+        let prev = with(|c| if c.no_output { None } else { c.parked_out.replace(self.0) });
         if prev.is_some() {
             with(|c| c.seam_errors.push("into_u8 called twice without an output".into()));
         }
